@@ -131,7 +131,15 @@ class Block:
     """One compressed block.  Everything optional has the encoder-like default."""
     def __init__(self, plain=None, L=None, origptr=None, rle=None, rand=0, crc_value=None,
                  tables=None, selectors=None, nsel_declared=None, surplus=0, surplus_value=0,
-                 start_len=None, paths=None, ntables=None, inuse=None, plain_for_crc=None, sel_codes=None):
+                 start_len=None, paths=None, ntables=None, inuse=None, plain_for_crc=None, sel_codes=None, raw_syms=None):
+        self.raw_syms = raw_syms
+        if raw_syms is not None:
+            # the MTF/zero-run symbols are given literally (without the end-of-block symbol)
+            inuse = list(range(256)) if inuse is None else sorted(inuse)
+            origptr = 0 if origptr is None else origptr
+            L = mtf_decode(raw_syms, inuse)
+            if plain_for_crc is None and crc_value is None:
+                plain_for_crc = unrle1(ibwt(L, origptr))
         if L is None:
             if rle is None:
                 rle = rle1(plain)
@@ -153,6 +161,8 @@ class Block:
 
     def symbols(self):
         """MTF + zero-run coding of L: list of symbol numbers (0 RUNA, 1 RUNB, ..., EOB)."""
+        if self.raw_syms is not None:
+            return list(self.raw_syms) + [len(self.inuse) + 1]
         order = list(self.inuse)
         out = []
         run = 0
@@ -249,6 +259,124 @@ class Block:
             c, l = codes[t][s]
             w.put(l, c, (tag + '.data') if first else None)
             first = False
+
+# ---- literal symbol streams and the 'verbatim carrier' block ------------------
+
+def mtf_decode(syms, inuse):
+    """MTF/zero-run symbols (without end-of-block) -> last column L"""
+    order = list(inuse)
+    L = bytearray()
+    run = shift = 0
+    for s in syms:
+        if s <= 1:
+            run += (s + 1) << shift
+            shift += 1
+            continue
+        if run:
+            L += bytes([order[0]]) * run
+            run = shift = 0
+        ch = order.pop(s - 1)
+        order.insert(0, ch)
+        L.append(ch)
+    if run:
+        L += bytes([order[0]]) * run
+    return bytes(L)
+
+def ibwt(L, idx):
+    n = len(L)
+    if n == 0:
+        return b''
+    order = sorted(range(n), key=lambda i: (L[i], i))
+    out = bytearray()
+    p = order[idx]
+    for _ in range(n):
+        out.append(L[p])
+        p = order[p]
+    return bytes(out)
+
+class EndsInsideRun(Exception):
+    pass
+
+def unrle1(rle):
+    """undo the initial run-length coding; four equal bytes at the very end
+    without a count byte raise EndsInsideRun"""
+    out = bytearray()
+    i, n = 0, len(rle)
+    while i < n:
+        c = rle[i]
+        r = 1
+        while r < 4 and i + r < n and rle[i + r] == c:
+            r += 1
+        i += r
+        out += bytes([c]) * r
+        if r == 4:
+            if i >= n:
+                raise EndsInsideRun()
+            out += bytes([c]) * rle[i]
+            i += 1
+    return bytes(out)
+
+# prefix code of the carrier: symbols 2..255 have the 8-bit codes 0x00..0xFD, RUNA, RUNB, symbol
+# 256 and end-of-block the 9-bit codes 0x1FC..0x1FF (Kraft sum exactly 1).  Any bit string that
+# never shows nine 1 bits at a code boundary is therefore the entropy-coded data of some block.
+CARRIER_LENS = [9, 9] + [8] * 254 + [9, 9]
+
+def spell(bitstr):
+    """symbols of the carrier code whose codes concatenate to bitstr (padded with 0 bits)"""
+    out = []
+    i = 0
+    s = bitstr + '0' * 16
+    while i < len(bitstr):
+        byte = int(s[i:i + 8], 2)
+        if byte <= 0xFD:
+            out.append(byte + 2)
+            i += 8
+        else:
+            code = int(s[i:i + 9], 2)
+            if code == 0x1FF:
+                raise ValueError('nine 1 bits at a code boundary cannot be spelled')
+            out.append({0x1FC: 0, 0x1FD: 1, 0x1FE: 256}[code])
+            i += 9
+    return out
+
+def block_bitstring(block):
+    """the bits of one block (magic .. last code), no stream header, no padding"""
+    w = Bits()
+    block.write(w, 'p')
+    return format(w.v, '0%db' % w.n)
+
+def carrier(plants, filler=3, shift9=0, salt=0):
+    """A valid block whose entropy-coded data spells out, verbatim, the bit strings in
+    `plants' (e.g. complete blocks from block_bitstring()), each preceded by `filler' 8-bit
+    padding symbols; shift9 extra 9-bit symbols in front move everything by shift9 bits
+    relative to the byte grid."""
+    syms = [0] * 0
+    x = salt * 7919 + 1
+    def pad(k):
+        nonlocal x
+        for _ in range(k):
+            x = (x * 1103515245 + 12345) & 0x7fffffff
+            syms.append(2 + 0x80 + ((x >> 16) % 0x7e))
+    for _ in range(shift9):
+        syms.append(256)
+    for bits in plants:
+        pad(filler)
+        for k in range(8):
+            # nine 1 bits at a code boundary are the end-of-block code: move the boundaries by
+            # putting k zero bits in front of the planted string
+            try:
+                syms.extend(spell('0' * k + bits))
+                break
+            except ValueError:
+                if k == 7:
+                    raise
+    pad(2)
+    for extra in range(8):
+        try:
+            return Block(raw_syms=list(syms), tables=[CARRIER_LENS, CARRIER_LENS])
+        except EndsInsideRun:
+            pad(1)
+    raise ValueError('carrier block keeps ending inside a run')
 
 def stream(blocks, level=9, stream_crc=None, header=True, eos=True, name='s'):
     w = Bits()
